@@ -131,6 +131,9 @@ class Rational(primitives.Expression):
     def __pow__(self, other):
         return Rational(self.Denominator**other, self.Numerator**other)
 
+    # names of the attributes holding the values of __getinitargs__ (used for unpickling)
+    init_arg_names = ("Numerator", "Denominator")
+
     def __getinitargs__(self):
         return (self.Numerator, self.Denominator)
 
